@@ -236,6 +236,10 @@ def cases(tier, seed, phase):
                 h2 = h1
         p1, p2 = PAYLOADS[j % len(PAYLOADS)], PAYLOADS[(j // 7) % len(PAYLOADS)]
         mode = rng.choice([ver, 'auto'])
+        if mode == 'auto' and rng.random() < 0.5:
+            # the auto-detecting mix-in with connections of different kinds next to each other: v1, v2, neither
+            other = [h for v, h in good if v != ver] + [b'GARBAGE!' + b'x' * 20, b'\r\n\r\n\x00\r\nQUIT\n']
+            h2 = other[rng.randrange(len(other))]
         yield {'mode': mode, 'what': 'pair', 'hdrlen': len(h1),
                'stream': (h1 + p1).hex(), 'short': [rng.randint(1, 9) for _ in range(len(h1) + 8)],
                'stream2': (h2 + p2).hex(), 'short2': [rng.randint(1, 9) for _ in range(len(h2) + 8)]}
